@@ -5,8 +5,8 @@ import random
 
 from .base import Result, V
 
-MODULES = ["TickitModel.Props.C15"]
-THEOREMS = ["bus_exactly_once_in_order", "produced_is_logged", "reaction_is_logged", "log_no_handlers", "resubscribe_duplicates", "topic_injective", "topic_in_ne_out"]
+MODULES = ["TickitModel.Props.C15", "TickitModel.Props.C15Registry"]
+THEOREMS = ["Registry.get_after_add_both", "Registry.add_other_name", "Registry.get_none_iff", "Registry.mem_interfaces", "Registry.run_mem_interfaces", "Registry.add_neither", "bus_exactly_once_in_order", "produced_is_logged", "reaction_is_logged", "log_no_handlers", "resubscribe_duplicates", "topic_injective", "topic_in_ne_out"]
 ANCHORS = ["src/tickit/core/state_interfaces/internal.py", "src/tickit/utils/topic_naming.py", "src/tickit/utils/singleton.py"]
 TECHNIQUE = "Lean 4 theorems (invariant over all subscribe/produce histories with re-entrant stratified handlers; topic-name injectivity over constants regenerated from the code) + exhaustive/seeded differential run of InternalStateServer against the model"
 LEVEL_TEXT = ("Full-strength theorem over the bus model: for every history of subscribe/produce operations with handlers that publish "
@@ -134,6 +134,83 @@ def monitor(ops, recv, produced, n_cons):
     return vs
 
 
+def registry_part(res, drv, rng, n):
+    """the registry of state interfaces (state_interface.add / interfaces / get_interface) against Core/Registry
+    (Props/C15Registry): generated classes that have a `produce` and / or a `subscribe` method or neither, registered under
+    a few names (re-registrations included) with either externality; the module's tables are saved and restored"""
+    import warnings
+    from tickit.core.state_interfaces import state_interface as SI
+    saved = (dict(SI.consumers), dict(SI.producers))
+    reqs, reals, cases = [], [], []
+    try:
+        for _ in range(n):
+            SI.consumers.clear()
+            SI.producers.clear()
+            adds, classes = [], {}
+            names = ["bus", "Bus", "bus ", "internal", "k"]
+            for i in range(rng.randrange(0, 9)):
+                prod, sub = rng.choice(((True, False), (False, True), (True, True), (False, False), (False, True), (True, False)))
+                ns = {}
+                if prod:
+                    async def produce(self, topic, value):
+                        pass
+                    ns["produce"] = produce
+                if sub:
+                    async def subscribe(self, topics):
+                        pass
+                    ns["subscribe"] = subscribe
+                cls = type(f"Gen{i}", (), ns)
+                classes[i] = cls
+                a = {"name": rng.choice(names), "ext": rng.random() < 0.5, "id": i, "produce": prod, "subscribe": sub}
+                adds.append(a)
+                with warnings.catch_warnings(record=True) as w:
+                    warnings.simplefilter("always")
+                    back = SI.add(a["name"], a["ext"])(cls)
+                    a["_warned"] = len(w)
+                    a["_same"] = back is cls
+            ident = {v: k for k, v in classes.items()}
+            gets = []
+            for q in names:
+                try:
+                    c, p = SI.get_interface(q)
+                    gets.append([ident.get(c, -1), ident.get(p, -1)])
+                except KeyError:
+                    gets.append("KeyError")
+            real = {"all": sorted(SI.interfaces()), "external": sorted(SI.interfaces(True)), "get": gets,
+                    "warnings": sum(a.pop("_warned") for a in adds), "returned_same": all(a.pop("_same") for a in adds)}
+            reqs.append({"op": "registry", "adds": adds, "queries": names})
+            reals.append(real)
+            cases.append({"registry": adds})
+    finally:
+        SI.consumers.clear()
+        SI.consumers.update(saved[0])
+        SI.producers.clear()
+        SI.producers.update(saved[1])
+    for rq, real, case, rep in zip(reqs, reals, cases, drv.eval(reqs)):
+        res.case(("registry", str(rq["adds"])), nontrivial=len(rq["adds"]) > 1)
+        res.count("registry-histories")
+        if not real.pop("returned_same"):
+            res.violate(V("registry-wrong", "the decorator did not return the class it was given", site="state_interface.add"), case)
+        if real != {k: rep.get(k) for k in real}:
+            res.diverge(f"state-interface registry: impl {real} model {rep}", case)
+            # the property's reading: a pair is usable iff both sides were registered; what is found is what was registered last
+            last = {}
+            for a in rq["adds"]:
+                side = "p" if a["produce"] else ("c" if a["subscribe"] else None)
+                if side:
+                    last[(a["name"], side)] = a
+            for q, g in zip(rq["queries"], real["get"]):
+                want = "KeyError" if (q, "c") not in last or (q, "p") not in last else [last[(q, "c")]["id"], last[(q, "p")]["id"]]
+                if g != want:
+                    res.violate(V("registry-wrong", f"get_interface({q!r}) -> {g}, registered last: {want} (history {rq['adds']})", site="state_interface.get_interface"), case)
+                    break
+            else:
+                both = sorted({n for (n, s) in last if (n, "c") in last and (n, "p") in last})
+                ext = [n for n in both if last[(n, "c")]["ext"] and last[(n, "p")]["ext"]]
+                if real["all"] != both or real["external"] != ext:
+                    res.violate(V("registry-wrong", f"interfaces() -> {real['all']}, interfaces(True) -> {real['external']}; registered pairs {both}, external ones {ext}", site="state_interface.interfaces"), case)
+
+
 def to_request(ops, handlers, n_cons):
     return {"op": "bus", "ops": ops, "handlers": [[k, v, pubs] for k, v, pubs in handlers], "fuel": 12, "n_consumers": n_cons}
 
@@ -251,6 +328,7 @@ def run(tier, seed, drv):
             for v in monitor(ops, recv, produced, n_cons):
                 res.violate(v, case)
     loop.close()
+    registry_part(res, drv, random.Random(seed + 5), 150 if tier == "quick" else 2000)
     # topic naming: behavioural spot check of injectivity on generated names (the theorem is over Gen/Constants)
     from tickit.utils.topic_naming import input_topic, output_topic
     names = ["a", "b", "a-in", "a-out", "x-out-in", "tickit-a", "in", "out", "-", "a-", "é", " ", "a ", " a", "a\n", "\ta", "A", "a b", "  "] + [f"n{i}" for i in range(20)]
@@ -275,6 +353,10 @@ def run(tier, seed, drv):
 
 def replay(payload, drv):
     c = payload["case"]
+    if "registry" in c:
+        r2 = Result()
+        registry_part(r2, drv, random.Random(payload.get("seed", 0) + 5), 150)
+        return {"violations": [v["record"] for v in r2.violations], "divergences": r2.divergences[:2]}
     if "names" in c:
         from tickit.utils.topic_naming import input_topic, output_topic
         ts = [(n, input_topic(n), output_topic(n)) for n in c["names"]]
